@@ -5,14 +5,19 @@ MODEL = 'loop'
 RULE = ('corpus, then seeded random scenarios: 1-3 world handles (1-3 processors each: plain, '
         'OnUpdateProcessor, CoroutineProcessor; 0-2 load-time events), optional pre-loading, an initial '
         'loop.switch, 1-3 start() calls of 1-8 frames in which any processor of any frame may request '
-        'switch()/raise SwitchWorld with every clear flag combination (also to the current handle), quit or '
+        'switch()/raise SwitchWorld with every clear flag combination (also to the current handle), call '
+        'loop.switch(handle, cc, cn) directly without raising, read loop.current_world, quit or '
         'raise; scripted reactions of callbacks (on_switch_out/in, load-time callbacks, on_update, on_quit) '
         'that switch, quit or raise themselves; plus the small-scope enumeration of gen_loop.small_scope. '
         'Non-trivial: at least one switch request was served inside start(); distinct by scenario text.')
 TRUSTED = ['harness/models/loop.py observes World.process through an attribute set on each world instance '
            '(the scenario handle names instances <handle>#<load number>); desper.default_loop is pointed at '
            'the SimpleLoop under test for the duration of a scenario']
-ASSUMPTIONS = ['every world has one listener that listens to all event names of the scenario; callbacks are '
+ASSUMPTIONS = ['direct calls of the running loop (loop.switch, loop.time_function = ..., loop.current_world) are '
+               'scripted for processors and coroutine steps, not for event callbacks; the texts leave a direct '
+               'loop.switch call in mid-frame open: the model mirrors the code (nothing is abandoned, no '
+               'switch events, the next iteration processes the new current world)',
+               'every world has one listener that listens to all event names of the scenario; callbacks are '
                'scripted reactions (switch, quit, raise) and terminate',
                'switch() is called with from_world=None and desper.default_loop set to the loop under test',
                'a world left by a directly raised SwitchWorld is not muted by the code; the property text '
@@ -32,7 +37,7 @@ def _line(o):
     t = o.split()
     if t[0] == 'ev' and t[2] == 'on_update':
         return f'ev {t[1]} on_update'           # the delta is C14's business
-    if t[0] in ('load', 'ev', 'hang'):
+    if t[0] in ('load', 'ev', 'hang', 'peek'):
         return o
     if t[0] == 'frame':
         return f'frame {t[1]}'
